@@ -19,18 +19,16 @@ structure Built where
   declInit : Option Nat     -- declared length before any supplied Content-Length header
 deriving Repr
 
-def ctHeader : Header := ⟨b!"Content-Type", b!"text/plain; charset=UTF-8"⟩
-
 def construct (kv : KV) : Built :=
   let ctor := get kv "ctor"
   let body := piecesOf ',' (get kv "cbody")
-  let total := body.flatten.length
+  let all := body.flatten
   if ctor == "string" then
-    ⟨Resp.new 200 [ctHeader] (some total), body, [ctHeader], some total⟩
+    ⟨Resp.fromString all, body, [ctHeader], some all.length⟩
   else if ctor == "data" || ctor == "file" then
-    ⟨Resp.new 200 [] (some total), body, [], some total⟩
+    ⟨Resp.fromData all, body, [], some all.length⟩
   else if ctor == "empty" then
-    ⟨Resp.new (toNatD (get kv "cstatus")) [] (some 0), [], [], some 0⟩
+    ⟨Resp.empty (toNatD (get kv "cstatus")), [], [], some 0⟩
   else
     let hs := headersOf (get kv "chdrs")
     let len := optNat (get kv "clen")
@@ -45,7 +43,7 @@ def applyOp (b : Built) (op : String) : Built :=
   | ["t", n] => { b with resp := { b.resp with threshold := some (toNatD n) } }
   | ["d", l, ps] =>
     -- with_data: new reader and length; headers supplied so far no longer influence the length
-    { b with resp := { b.resp with dataLength := optNat l }, pieces := piecesOf '.' ps,
+    { b with resp := b.resp.withData (optNat l), pieces := piecesOf '.' ps,
              supplied := b.supplied.filter (fun h => !h.is b!"Content-Length"), declInit := optNat l }
   | _ => b
 
